@@ -143,6 +143,9 @@ def extractor_specs():
         st.builds(lambda x, y: {"fields": {"x": x, "y": [y]}, "persistent": True}, st.integers(0, 9), st.text(max_size=3)),
 
         st.sampled_from(RAISABLE).map(lambda i: {"raise": i}),
+        # extractors that fail by what they return rather than by raising
+        st.just({"none": True}),
+        st.sampled_from(RAISABLE).map(lambda i: {"raise": i, "lazy": True}),
     )
     general = st.lists(st.tuples(st.integers(0, len(EXTRACTOR_CLASSES) - 1), beh).map(list), max_size=5)
     # registrations on the broad base classes hit every failing action: keep them frequent
